@@ -185,29 +185,28 @@ Definition drop_callback (t : ent) (w : world) : world :=
   | None => w
   end.
 
+(* the component drops of World::despawn, one step per component kind *)
+Definition dsp_alive (e : ent) (w : world) : world := emit (EvGone e) (w <| alive := removeN e (alive w) |>).
+(* React<C> components: removal events *)
+Definition dsp_comps (e : ent) (w : world) : world :=
+  (push_removed_all (comps_of e (comps w)) e w) <| comps ::= comps_without e |>.
+(* SystemCommandStorage: a present callback is dropped with it *)
+Definition dsp_storage (e : ent) (w : world) : world :=
+  (match alookup e (storage w) with Some true => drop_callback e w | _ => w end) <| storage ::= aremove e |>.
+(* EntityReactors: handles dropped in order *)
+Definition dsp_ereactors (e : ent) (w : world) : world :=
+  (match alookup e (ereactors w) with Some l => handles_drop (map snd l) w | None => w end) <| ereactors ::= aremove e |>.
+(* DespawnTracker::drop sends on the despawn channel (reaction_triggers_impl.rs:27-34) *)
+Definition dsp_tracker (e : ent) (w : world) : world :=
+  if memN e (dtrackers w) then w <| dtrackers := removeN e (dtrackers w) |> <| despawn_chan ::= fun c => c ++ [e] |> else w.
+(* data entity: payload dropped *)
+Definition dsp_data (e : ent) (w : world) : world :=
+  (match alookup e (dataents w) with Some d => drop_ddata d w | None => w end) <| dataents ::= aremove e |>.
+Definition dsp_xlocals (e : ent) (w : world) : world := w <| xlocals ::= xlocals_without e |>.
+
 Definition despawn (e : ent) (w : world) : world :=
   if negb (is_alive e w) then w else
-  let w := w <| alive := removeN e (alive w) |> in
-  let w := emit (EvGone e) w in
-  (* React<C> components: removal events *)
-  let w := push_removed_all (comps_of e (comps w)) e w in
-  let w := w <| comps := comps_without e (comps w) |> in
-  (* SystemCommandStorage: a present callback is dropped with it *)
-  let w := match alookup e (storage w) with
-           | Some true => drop_callback e w
-           | _ => w end in
-  let w := w <| storage := aremove e (storage w) |> in
-  (* EntityReactors: handles dropped in order *)
-  let w := match alookup e (ereactors w) with
-           | Some l => handles_drop (map snd l) w
-           | None => w end in
-  let w := w <| ereactors := aremove e (ereactors w) |> in
-  (* DespawnTracker::drop sends on the despawn channel (reaction_triggers_impl.rs:27-34) *)
-  let w := if memN e (dtrackers w) then w <| dtrackers := removeN e (dtrackers w) |> <| despawn_chan ::= fun c => c ++ [e] |> else w in
-  (* data entity: payload dropped *)
-  let w := match alookup e (dataents w) with Some d => drop_ddata d w | None => w end in
-  let w := w <| dataents := aremove e (dataents w) |> in
-  w <| xlocals := xlocals_without e (xlocals w) |>.
+  dsp_xlocals e (dsp_data e (dsp_tracker e (dsp_ereactors e (dsp_storage e (dsp_comps e (dsp_alive e w)))))).
 
 (* ---------- trackers (event_readers.rs:26-60 etc., after the ticket fix) ---------- *)
 Section Trk.
